@@ -71,6 +71,10 @@ type transaction struct {
 	readOnly bool
 	b        *batch
 	l        *LevelDB
+	// snap is the state a read-only transaction reads from: without it a commit
+	// landing between two of its reads made it mix two states (the synced height
+	// of one block with the coins of another).
+	snap *leveldb.Snapshot
 
 	cache map[db.BucketMeta]*levelBucket
 }
@@ -163,9 +167,14 @@ func (l *LevelDB) BeginTx() (db.DBTransaction, error) {
 
 // BeginReadTx ...
 func (l *LevelDB) BeginReadTx() (db.ReadTransaction, error) {
+	snap, err := l.ldb.GetSnapshot()
+	if err != nil {
+		return nil, err
+	}
 	return &transaction{
 		readOnly: true,
 		l:        l,
+		snap:     snap,
 		cache:    make(map[db.BucketMeta]*levelBucket),
 	}, nil
 }
@@ -175,7 +184,7 @@ func (tx *transaction) TopLevelBucket(name string) db.Bucket {
 	bucketPath := joinBucketPath(topLevelBucketDepth, name)
 	key := []byte(joinBucketPath(bucketNameBucket, bucketPath))
 
-	_, err := tx.l.ldb.Get(key, nil)
+	_, err := tx.reader().Get(key, nil)
 	if !tx.readOnly && err == leveldb.ErrNotFound {
 		if v, _ := tx.b.Get(key); v != nil {
 			err = nil
@@ -200,7 +209,7 @@ func (tx *transaction) BucketNames() (names []string, err error) {
 
 	prefix := []byte(joinBucketPath(bucketNameBucket, topLevelBucketDepth, ""))
 
-	iter := tx.l.ldb.NewIterator(util.BytesPrefix(prefix), nil)
+	iter := tx.reader().NewIterator(util.BytesPrefix(prefix), nil)
 	defer iter.Release()
 
 	names = make([]string, 0)
@@ -260,7 +269,7 @@ func (tx *transaction) FetchBucket(meta db.BucketMeta) db.Bucket {
 		path := joinBucketPath(meta.Paths()...)
 		key := []byte(joinBucketPath(bucketNameBucket, path))
 
-		_, err := tx.l.ldb.Get(key, nil)
+		_, err := tx.reader().Get(key, nil)
 		if !tx.readOnly && err == leveldb.ErrNotFound {
 			if v, _ := tx.b.Get(key); v != nil {
 				err = nil
@@ -296,7 +305,7 @@ func (tx *transaction) CreateTopLevelBucket(name string) (db.Bucket, error) {
 	bucketPath := joinBucketPath(topLevelBucketDepth, name)
 	key := []byte(joinBucketPath(bucketNameBucket, bucketPath))
 
-	_, err := tx.l.ldb.Get(key, nil)
+	_, err := tx.reader().Get(key, nil)
 	if err == nil {
 		_, deleted := tx.b.Get(key)
 		if !deleted {
@@ -336,12 +345,35 @@ func (tx *transaction) Rollback() error {
 	if !tx.readOnly {
 		tx.l.muTr.Unlock()
 	}
+	tx.releaseSnapshot()
 	return nil
+}
+
+func (tx *transaction) releaseSnapshot() {
+	if tx.snap != nil {
+		tx.snap.Release()
+		tx.snap = nil
+	}
+}
+
+// reader is what the transaction reads from: its snapshot if it is read-only,
+// the database itself if it is the (single) writer.
+type reader interface {
+	Get(key []byte, ro *opt.ReadOptions) ([]byte, error)
+	NewIterator(slice *util.Range, ro *opt.ReadOptions) iterator.Iterator
+}
+
+func (tx *transaction) reader() reader {
+	if tx.snap != nil {
+		return tx.snap
+	}
+	return tx.l.ldb
 }
 
 // Commit ...
 func (tx *transaction) Commit() error {
 	if tx.readOnly {
+		tx.releaseSnapshot()
 		return nil
 	}
 	err := tx.l.ldb.Write(tx.b.b, nil)
@@ -370,7 +402,7 @@ func (b *levelBucket) NewBucket(name string) (db.Bucket, error) {
 	}
 
 	key := []byte(joinBucketPath(bucketNameBucket, sub.path))
-	_, err = b.tx.l.ldb.Get(key, nil) // value == name
+	_, err = b.tx.reader().Get(key, nil) // value == name
 	if err == nil {
 		_, deleted := b.tx.b.Get(key)
 		if !deleted {
@@ -403,7 +435,7 @@ func (b *levelBucket) Bucket(name string) db.Bucket {
 
 	key := []byte(joinBucketPath(bucketNameBucket, sub.path))
 
-	_, err = b.tx.l.ldb.Get(key, nil)
+	_, err = b.tx.reader().Get(key, nil)
 	if !b.tx.readOnly && err == leveldb.ErrNotFound {
 		if v, _ := b.tx.b.Get(key); v != nil {
 			err = nil
@@ -457,7 +489,7 @@ func (b *levelBucket) BucketNames() (names []string, err error) {
 	ss = append(ss, "")
 	prefix := []byte(joinBucketPath(bucketNameBucket, joinBucketPath(ss...)))
 
-	iter := b.tx.l.ldb.NewIterator(util.BytesPrefix(prefix), nil)
+	iter := b.tx.reader().NewIterator(util.BytesPrefix(prefix), nil)
 	defer iter.Release()
 
 	names = make([]string, 0)
@@ -540,7 +572,7 @@ func deleteBucket(b *levelBucket) error {
 
 	// delete k/v in bucket
 	prefix := []byte(joinBucketPath(b.path, ""))
-	iter := b.tx.l.ldb.NewIterator(util.BytesPrefix(prefix), nil)
+	iter := b.tx.reader().NewIterator(util.BytesPrefix(prefix), nil)
 	for iter.Next() {
 		_, deleted := b.tx.b.Get(iter.Key())
 		if deleted {
@@ -600,7 +632,7 @@ func (b *levelBucket) Get(key []byte) ([]byte, error) {
 		return nil, nil
 	}
 
-	value, err := b.tx.l.ldb.Get(key, nil)
+	value, err := b.tx.reader().Get(key, nil)
 	if err != nil {
 		if err == leveldb.ErrNotFound {
 			if b.tx.readOnly {
@@ -644,7 +676,7 @@ func (b *levelBucket) Clear() error {
 	}
 	prefix := []byte(joinBucketPath(b.path, ""))
 
-	iter := b.tx.l.ldb.NewIterator(util.BytesPrefix(prefix), nil)
+	iter := b.tx.reader().NewIterator(util.BytesPrefix(prefix), nil)
 	defer iter.Release()
 
 	for iter.Next() {
@@ -676,7 +708,7 @@ func (b *levelBucket) GetByPrefix(prefix []byte) ([]*db.Entry, error) {
 	entries := make([]*db.Entry, 0)
 	set := make(map[string]struct{})
 
-	iter := b.tx.l.ldb.NewIterator(util.BytesPrefix(innerPrefix), nil)
+	iter := b.tx.reader().NewIterator(util.BytesPrefix(innerPrefix), nil)
 	defer iter.Release()
 
 	for iter.Next() {
@@ -885,7 +917,7 @@ func (b *levelBucket) NewIterator(slice *db.Range) db.Iterator {
 		b:       b,
 		slice:   slice,
 		iterEnd: false,
-		iter: b.tx.l.ldb.NewIterator(&util.Range{
+		iter: b.tx.reader().NewIterator(&util.Range{
 			Start: slice.Start,
 			Limit: slice.Limit,
 		}, nil),
